@@ -10,6 +10,7 @@ from concurrent.futures import ThreadPoolExecutor
 VERIF = "/verif"
 SEED = os.path.join(VERIF, "seeded")
 ROOT = "/tmp/verif-seedrun"
+BASE = os.path.join(ROOT, "base")   # pristine export of /repo's HEAD: immune to a patch being tried on /repo meanwhile
 manifest = json.load(open(os.path.join(VERIF, "MANIFEST.json")))
 claimed = [c["property_id"] for c in manifest["checks"]]
 args = sys.argv[1:]
@@ -41,7 +42,7 @@ def worker(slot, todo):
         meta = json.load(open(os.path.join(d, "meta.json")))
         prop = meta["property"]
         kind = meta.get("kind", "breaking")
-        sh("rsync -a --delete --exclude target --exclude .git /repo/rust/ %s/rust/" % repo)
+        sh("rsync -a --delete --exclude target --exclude .git %s/rust/ %s/rust/" % (BASE, repo))
         r = sh("cd %s && git apply --unsafe-paths %s/patch.diff" % (repo, d))
         if r.returncode != 0:
             out[sid] = {"applies": False, "error": r.stderr[-300:]}
@@ -49,6 +50,16 @@ def worker(slot, todo):
             continue
         checks = claimed if all_checks else ([prop] if prop in claimed else [])
         fired = {}
+        if all_checks:
+            # all properties in one process (facts extracted and loaded once)
+            p = subprocess.run("python3 engine/selftest/matrix.py", shell=True, cwd=VERIF, capture_output=True, text=True, env=env)
+            line = [l for l in p.stdout.splitlines() if l.startswith("MATRIX ")]
+            if not line:
+                fired = {"*": ["MATRIX ERROR exit %d: %s" % (p.returncode, (p.stdout + p.stderr)[-300:])]}
+            else:
+                m = json.loads(line[-1][7:])
+                fired = {c: v[:4] for c, v in m.items() if v}
+            checks = []
         for c in checks:
             p = subprocess.run("./check %s quick" % c, shell=True, cwd=VERIF, capture_output=True, text=True, env=env)
             viol = [l.strip()[:300] for l in p.stdout.splitlines() if l.startswith("  [")]
@@ -61,10 +72,19 @@ def worker(slot, todo):
         json.dump(meta, open(os.path.join(d, "meta.json"), "w"), indent=1)
         tag = ("FIRED" if prop in fired else "missed") if kind == "breaking" else ("silent" if not fired else "ALARM")
         print(sid, kind, "own-check:", tag, "| fired:", sorted(fired), flush=True)
+        try:
+            json.dump(out, open(os.path.join(base, "partial.json"), "w"))
+        except Exception:
+            pass
     return out
 
 
-os.makedirs(ROOT, exist_ok=True)
+os.makedirs(BASE, exist_ok=True)
+# the committed state of /repo (working-tree edits such as a patch being tried are not picked up)
+r0 = sh("git -C /repo archive HEAD rust | tar -x -C %s" % BASE)
+if r0.returncode != 0:
+    print("cannot export /repo HEAD:", r0.stderr[-300:])
+    sys.exit(2)
 chunks = [ids[i::jobs] for i in range(jobs)]
 try:
     with ThreadPoolExecutor(max_workers=jobs) as ex:
